@@ -18,6 +18,8 @@ def toml_for(cfg):
     lines.append("enabled_clone_types = [%s]" % ", ".join('"type%d"' % t for t in cfg["enabled"]))
     lines.append("enable_dfa = %s" % ("true" if cfg["enable_dfa"] else "false"))
     lines.append('lsh_enabled = "%s"' % cfg["lsh_enabled"])
+    if cfg.get("lsh_auto_threshold"):
+        lines.append("lsh_auto_threshold = %d" % cfg["lsh_auto_threshold"])
     if cfg.get("lsh"):
         lines += ["lsh_bands = %d" % cfg["lsh"]["bands"], "lsh_rows = %d" % cfg["lsh"]["rows"], "lsh_hashes = %d" % cfg["lsh"]["hashes"],
                   "lsh_similarity_threshold = %s" % repr(float(cfg["lsh"]["threshold"]))]
@@ -59,6 +61,13 @@ def choose_cfg(rng, probe, max_frags=45):
         cfg["lsh_enabled"] = "true"
         cfg["lsh"] = dict(bands=rng.choice([1, 8, 32, 64]), rows=rng.choice([1, 2, 4, 8, 200]), hashes=rng.choice([16, 64, 128]),
                           threshold=rng.choice([0.0, 0.3, 0.5, 0.9]))
+        # lsh_enabled = "auto": LSH from lsh_auto_threshold fragments on (domain.ShouldUseLSH); the threshold sits on / next to the
+        # number of fragments this configuration extracts (decided by a side generator: the other draws stay what they were)
+        side = cc.side_rng(rng)
+        if side.random() < 0.6:
+            n_est = sum(1 for x in frs if x["lines"] >= min_lines and x["size"] >= min_nodes)
+            cfg["lsh_enabled"] = "auto"
+            cfg["lsh_auto_threshold"] = max(1, n_est + side.choice([-1, 0, 0, 1]))
     return cfg
 
 
@@ -78,6 +87,8 @@ COST_VARIANTS = {
     "python-ignore": dict(CostModelType="python", IgnoreLiterals=True, IgnoreIdentifiers=True, EnableDFAAnalysis=False),
     "default": dict(CostModelType="default", EnableDFAAnalysis=False),
     "weighted": dict(CostModelType="weighted", EnableDFAAnalysis=False),
+    # a name NewCloneDetector does not know: falls back to the plain Python cost model (clone_detector.go:293)
+    "unknown-name": dict(CostModelType="no-such-model", EnableDFAAnalysis=False),
 }
 
 
@@ -268,6 +279,103 @@ def twin_section(ck, rng, thorough, stats, base):
                               "order_b": [m["b"], m["a"]], "pairs_b": sorted(got[1]), "sim_ab": sab, "sim_ba": sba})
 
 
+def validation_section(ck, rng, thorough, stats, base):
+    """Which configurations are 'accepted by validation' (the quantifier of C08 and the hypothesis `validate c = true` of every
+    theorem in Props/C08.v and Props/C09.v): domain.CloneRequest.Validate and domain.ShouldUseLSH against the model on a lattice
+    with both sides of every clause, and the command line on both sides of the clauses it can reach."""
+    eps = EPS40
+    ok = dict(min_lines=5, min_nodes=10, sim=0.65, maxd=50.0, t1=0.85, t2=0.75, t3=0.70, t4=0.65)
+    cases = [ok]
+    for k, vals in (("min_lines", [1, 0, -1, 2]), ("min_nodes", [1, 0, -3]), ("sim", [0.0, 1.0, -eps, 1.0 + eps, -0.5, 1.5, eps]),
+                    ("maxd", [0.0, -eps, -1.0, eps]), ("t1", [1.0, 1.0 + eps, 2.0]), ("t4", [0.0, -eps, -0.5])):
+        cases += [dict(ok, **{k: v}) for v in vals]
+    for hi, lo in (("t1", "t2"), ("t2", "t3"), ("t3", "t4")):
+        cases += [dict(ok, **{hi: ok[lo]}), dict(ok, **{hi: ok[lo] + eps}), dict(ok, **{hi: ok[lo] - eps}), dict(ok, **{lo: ok[hi]}), dict(ok, **{lo: ok[hi] - eps})]
+    cases += [dict(ok, t1=0.5, t2=0.5, t3=0.5, t4=0.5), dict(ok, t1=3 * eps, t2=2 * eps, t3=eps, t4=0.0), dict(ok, t1=1.0, t2=1.0 - eps, t3=1.0 - 2 * eps, t4=1.0 - 3 * eps),
+              dict(ok, t1=0.6, t2=0.7, t3=0.8, t4=0.9), dict(ok, t2=1.5, t1=2.0), dict(ok, t3=-0.1, t4=-0.2)]
+    grid = [0.0, eps, 0.3, 0.5, 0.5 + eps, 0.7, 1.0 - eps, 1.0, 1.0 + eps, -eps]
+    for _ in range(200 if thorough else 40):
+        cases.append(dict(min_lines=rng.choice([1, 1, 5, 0, -1]), min_nodes=rng.choice([1, 10, 10, 0]), sim=rng.choice(grid), maxd=rng.choice([0.0, 50.0, 50.0, -eps]),
+                          t1=rng.choice(grid), t2=rng.choice(grid), t3=rng.choice(grid), t4=rng.choice(grid)))
+    reqs = [dict(paths=["x.py"], min_lines=c["min_lines"], min_nodes=c["min_nodes"], similarity_threshold=c["sim"], max_edit_distance=c["maxd"],
+                 type1_threshold=c["t1"], type2_threshold=c["t2"], type3_threshold=c["t3"], type4_threshold=c["t4"]) for c in cases]
+    modes = [("true", 1), ("false", 2), ("auto", 0), ("", 0), ("TRUE", 0)]
+    lsh = [dict(mode=m, count=n, threshold=t) for m, _ in modes for t in (0, 1, 7, 500, 501) for n in sorted({0, 1, t - 1 if t else 499, t if t else 500, t + 1 if t else 501})]
+    res = lib.driver([{"op": "clone_validate", "requests": reqs, "lsh": lsh}], timeout=300)[0]
+    if "error" in res:
+        ck.broken_ties.append("driver clone_validate failed: %s" % res["error"])
+        return
+    mcode = dict(modes)
+    blank = cc.model_cfg_from_detector(cc.service_cfg({k: 0 for k in (
+        "min_lines", "min_nodes", "type1_threshold", "type2_threshold", "type3_threshold", "type4_threshold", "similarity_threshold",
+        "max_edit_distance", "ignore_literals", "ignore_identifiers", "skip_docstrings", "enable_dfa", "lsh_similarity_threshold",
+        "lsh_bands", "lsh_rows", "lsh_hashes")}))
+    terms = [cc.coq_cfg(dict(blank, min_lines=c["min_lines"], min_nodes=c["min_nodes"], sim_thr=c["sim"], max_dist=c["maxd"], t1=c["t1"], t2=c["t2"], t3=c["t3"], t4=c["t4"]))
+             for c in cases]
+    body = "Eval vm_compute in (map validate %s).\n" % clist(terms)
+    body += "Eval vm_compute in (map (fun x => should_use_lsh (fst (fst x)) (snd (fst x)) (snd x)) %s).\n" % clist(
+        ["(%s, %s, %s)" % (cZ(mcode[l["mode"]]), cZ(l["count"]), cZ(l["threshold"])) for l in lsh])
+    try:
+        mv = lib.parse_coq_values(lib.coq_eval("C08_validate", cc.REQ, body))
+    except Exception as e:
+        ck.broken_ties.append("model evaluation (validate) failed: %s" % str(e)[-500:])
+        return
+    acc = rej = 0
+    for c, r, m in zip(cases, res["validate"], mv[0]):
+        acc += r["ok"]
+        rej += not r["ok"]
+        if r["ok"] != m:
+            ck.broken_ties.append("CloneRequest.Validate %s the configuration %s (%s) but the model's validate (the hypothesis of the C08/C09 theorems) says %s" % (
+                "accepts" if r["ok"] else "rejects", c, r.get("error", ""), m))
+            break
+    for l, r, m in zip(lsh, res["use_lsh"], mv[1]):
+        if r != m:
+            ck.broken_ties.append("ShouldUseLSH(%r, %d, %d) = %s but the model says %s" % (l["mode"], l["count"], l["threshold"], r, m))
+            break
+    stats["validate_cases"] = len(cases)
+    stats["validate_accepted"], stats["validate_rejected"] = acc, rej
+    stats["should_use_lsh_cases"] = len(lsh)
+
+    # ---- command line: --clone-threshold reaches CloneRequest.Validate, the configuration file is validated on loading
+    d = os.path.join(base, "validate")
+    os.makedirs(d, exist_ok=True)
+    src = "\n".join(cc.straight_function("alpha", 12)) + "\n"
+    for name in ("a.py", "b.py"):
+        with open(os.path.join(d, name), "w") as f:
+            f.write("import os\n\n\n" + src)
+    runs = [("flag", v, None) for v in (-0.5, -eps, 0.0, 1.0, 1.0 + eps, 1.5)]
+    for hi, lo in (("t1", "t2"), ("t2", "t3"), ("t3", "t4")):
+        runs += [("file", None, dict(ok, **{hi: ok[lo]})), ("file", None, dict(ok, **{hi: ok[lo] + eps}))]
+    runs += [("file", None, dict(ok, t1=1.0)), ("file", None, dict(ok, t1=1.0 + eps)), ("file", None, dict(ok, sim=1.0 + eps))]
+    if not thorough:
+        runs = runs[:6] + rng.sample(runs[6:], 4)
+    for kind, v, c in runs:
+        c = c or dict(ok, sim=v)
+        toml = "[clones]\nmin_lines = 5\nmin_nodes = 10\n"
+        if kind == "file":
+            toml += "similarity_threshold = %r\ntype1_threshold = %r\ntype2_threshold = %r\ntype3_threshold = %r\ntype4_threshold = %r\n" % (
+                c["sim"], c["t1"], c["t2"], c["t3"], c["t4"])
+        with open(os.path.join(d, ".pyscn.toml"), "w") as f:
+            f.write(toml)
+        rc, data, err = lib.analyze_json(d, ["--select", "clones"] + (["--clone-threshold=%r" % v] if kind == "flag" else []))
+        accepted = rc == 0 and bool(data) and bool(data.get("clone"))
+        expect = (0.0 <= c["sim"] <= 1.0 and all(0.0 <= c[k] <= 1.0 for k in ("t1", "t2", "t3", "t4")) and c["t1"] > c["t2"] > c["t3"] > c["t4"])
+        stats["validate_cli_runs"] = stats.get("validate_cli_runs", 0) + 1
+        stats["validate_cli_rejected"] = stats.get("validate_cli_rejected", 0) + (not accepted)
+        if accepted and not expect:
+            ck.violation("pyscn analyze accepts a clone configuration that validation must reject (%s): similarity_threshold %r, type thresholds %r %r %r %r" % (
+                "--clone-threshold" if kind == "flag" else ".pyscn.toml", c["sim"], c["t1"], c["t2"], c["t3"], c["t4"]),
+                {"kind": "cli-validate", "files": {"a.py": src, "b.py": src}, "toml": toml, "flag": v, "rc": rc, "request": data["clone"].get("request")})
+        elif not accepted and expect:
+            ck.broken_ties.append("pyscn analyze rejects a clone configuration the model's validate accepts (%s %r): rc %s %s" % (kind, c, rc, (err or "")[:200]))
+        elif accepted:
+            req = data["clone"]["request"]
+            if kind == "flag" and req["similarity_threshold"] != v:
+                ck.notes.append("--clone-threshold=%r accepted but the request carries %r" % (v, req["similarity_threshold"]))
+            if len(data["clone"].get("clone_pairs") or []) != 1:
+                ck.broken_ties.append("validate lattice: expected the one verbatim pair, got %d pairs (%s %r)" % (len(data["clone"].get("clone_pairs") or []), kind, c))
+
+
 def main(tier):
     ck = lib.Check("C08", tier)
     ck.prepare("C08.v")
@@ -276,7 +384,8 @@ def main(tier):
     n_proj = 100 if thorough else 7
     cfgs_per = 3 if thorough else 2
     stats = dict(projects=0, cli_runs=0, reported_pairs=0, verbatim_expected=0, verbatim_found=0, verbatim_missed_f19=0,
-                 order_runs=0, model_cases=0, extract_cases=0, boundary_thresholds=0, relations={}, truncated=0, lsh_cli=0)
+                 order_runs=0, model_cases=0, extract_cases=0, boundary_thresholds=0, relations={}, truncated=0, lsh_cli=0,
+                 placements={}, verbatim_not_extracted_known=0)
     cases = []
     if not ck.go_ok:
         ck.finish()
@@ -284,7 +393,11 @@ def main(tier):
 
     projects = []
     for pi in range(n_proj):
-        texts, items = cc.gen_project(rng, n_bases=rng.randint(2, 3), max_items=rng.choice([5, 6, 7, 9]) if thorough else rng.choice([4, 5, 6]))
+        # copy placements: every project has one verbatim copy nested in a compound statement (cycling through clonecommon.WRAPS:
+        # handler of try/except, finally block, else of try, try body, with, else of if), others at random; docstrings on some bases
+        wraps = sorted(cc.WRAPS, key=lambda w: (w not in cc.HANDLER_WRAPS, w))
+        texts, items = cc.gen_project(rng, n_bases=rng.randint(2, 3), max_items=rng.choice([5, 6, 7, 9]) if thorough else rng.choice([4, 5, 6]),
+                                      force_wrap=wraps[pi % len(wraps)], doc_p=0.3)
         projects.append((texts, items))
     # probe: lenient configuration, learn similarities and sizes
     probe_cfg = dict(MinLines=4, MinNodes=6, MaxEditDistance=0, ReduceBoilerplateSimilarity=False, BoilerplateMultiplier=0,
@@ -349,9 +462,10 @@ def main(tier):
         r["req"] = req
         files = [(p, r["texts"][p]) for p in req["paths"]]
         lsh = []
-        if req["lsh_enabled"] == "true":
+        if req["lsh_enabled"] != "false":
             lsh = [dict(bands=req["lsh_bands"], rows=req["lsh_rows"], hashes=req["lsh_hashes"], threshold=req["lsh_similarity_threshold"])]
             stats["lsh_cli"] += 1
+            stats["lsh_auto_cli"] = stats.get("lsh_auto_cli", 0) + (req["lsh_enabled"] == "auto")
         dreqs.append(cc.driver_req(files, cc.service_cfg(req), lsh=lsh, table="full"))
         # same project, another file order (order invariance of the detector itself)
         perm = list(files)
@@ -482,9 +596,26 @@ def main(tier):
             if it["relation"] != "verbatim":
                 continue
             a, b = by_start.get((bases[it["base"]]["path"], bases[it["base"]]["start"])), by_start.get((it["path"], it["start"]))
+            stats["placements"][it.get("wrap") or "top-level"] = stats["placements"].get(it.get("wrap") or "top-level", 0) + 1
             if a is not None and b is not None and frags[a]["tree"] != frags[b]["tree"]:
                 ck.violation("a copy that differs only in comments and blank lines has a different tree (%s vs %s)" % (bases[it["base"]]["name"], it["name"]),
                              dict(replay, frag_a=frags[a], frag_b=frags[b]))
+            if a is not None and b is None:
+                # The original meets the configured minimum size (it was extracted), so does its copy (same nodes, at least as many
+                # lines): the copy is a fragment the property speaks about, but the detector never saw it.
+                stats["verbatim_expected"] += 1
+                tags = {"kind": "verbatim-not-extracted", "in_handler_or_finally_block": it.get("wrap") in cc.HANDLER_WRAPS}
+                what = ("verbatim copy of %s %s (%s:%d, %d lines, Size %d) at %s:%d is never extracted as a fragment (placement: %s), so the pair is not reported" % (
+                    it["kind"], it["name"], frags[a]["file"], frags[a]["start"], frags[a]["lines"], frags[a]["size"], it["path"], it["start"],
+                    it.get("wrap") or "top level"))
+                e = ck.match_known(tags)
+                if e:
+                    stats["verbatim_not_extracted_known"] += 1
+                    ck.known_finding(e)
+                    if len(ck.samples) < 6:
+                        ck.samples.append({"known_finding": e["id"], "what": what})
+                else:
+                    ck.violation(what, dict(replay, frag_a=frags[a], copy=it, tags=tags))
         if can_expect:
             for i in range(len(frags)):
                 for j in range(i + 1, len(frags)):
@@ -557,6 +688,8 @@ def main(tier):
 
     twin_section(ck, rng, thorough, stats, base)
     lib.log("twins %.1fs" % (time.time() - t0))
+    validation_section(ck, cc.side_rng(rng), thorough, stats, base)
+    lib.log("validation %.1fs" % (time.time() - t0))
 
     ck.cov.update({
         "evaluations": stats["cli_runs"] + stats["order_runs"] + stats.get("twin_order_runs", 0) + stats.get("twin_cli_runs", 0),
